@@ -97,7 +97,7 @@ def f2(ctx):
             oka = tag(a) == "tuple" and a[1][0] == ("param", 1, "val") and (tag(a[1][1]) == "hi")
             yield Ob(key_of("C10-F2", b.path, "comparator-args"), oka, "comparator called with (val, size of next)", ctx.loc(checks[0]))
             # advance: the latch edge that updates `current` from `next` lies on the comparator's false edge
-            names = {l["name"]: i for i, l in enumerate(b.locals) if l["name"]}
+            names = search_roles(b, res)     # by type and data flow, not by source name
             cur = names.get("current")
             backs = b.back_edges()
             adv = 0
